@@ -71,36 +71,6 @@ func c13Gen(rt *rapid.T) c13Input {
 	return in
 }
 
-// c13Hook: layout rule for the fuzz-protocol frame (typegen cannot import fuzz).
-func c13Hook(w *typegen.Writer, v reflect.Value, path string) bool {
-	if v.Type() != reflect.TypeOf(Message{}) {
-		return false
-	}
-	m := v.Interface().(Message)
-	var arm reflect.Value
-	for _, a := range cdcMsgArms {
-		if a.Type == m.Type {
-			arm = v.FieldByName(a.Field)
-		}
-	}
-	if !arm.IsValid() || arm.IsNil() {
-		panic("message arm missing")
-	}
-	sub := &typegen.Writer{Seg: w.Seg, Hook: c13Hook}
-	sub.Value(arm.Elem(), path+".payload")
-	base := w.Buf.Len()
-	w.Marks = append(w.Marks, typegen.Mark{Off: base, Len: 4, Kind: typegen.MarkFrame, Path: path + ".length", Val: uint64(sub.Buf.Len() + 1)})
-	w.Fixed(uint64(sub.Buf.Len()+1), 4)
-	w.Tag(path+".Type", byte(m.Type), 0, []byte{0, 1, 2, 3, 4, 5, 255})
-	off := w.Buf.Len()
-	w.Raw(sub.Buf.Bytes())
-	for _, mk := range sub.Marks {
-		mk.Off += off
-		w.Marks = append(w.Marks, mk)
-	}
-	return true
-}
-
 // c13Applied describes the concrete mutation.
 type c13Applied struct {
 	Kind       string
@@ -341,84 +311,39 @@ func c13Has(cdc *cdcCodec, target any) bool {
 }
 
 // c13Known: narrow classifiers (mutated site + observed divergence).
-// c13RefHook: strict reference parse of the fuzz-protocol frame.
-func c13RefHook(r *typegen.Reader, t reflect.Type, path string) bool {
-	if t != reflect.TypeOf(Message{}) {
-		return false
-	}
-	start := r.Pos
-	hdr := r.Take(4, path+".length")
-	l := int(binary.LittleEndian.Uint32(hdr))
-	if l < 1 {
-		panic(fmt.Sprintf("frame length %d", l)) // converted below
-	}
-	tag := r.Take(1, path+".Type")[0]
-	var arm reflect.Type
-	mt := reflect.TypeOf(Message{})
-	for _, a := range cdcMsgArms {
-		if byte(a.Type) == tag {
-			f, _ := mt.FieldByName(a.Field)
-			arm = f.Type.Elem()
-		}
-	}
-	if arm == nil {
-		r.Pos = start + 4
-		r.Need(1<<30, path+".Type#invalid-tag") // reported as a reject below
-	}
-	r.Need(l-1, path+".payload")
-	sub := &typegen.Reader{Data: r.Data[r.Pos : r.Pos+l-1], Seg: r.Seg, Hook: c13RefHook}
-	subN, rej := 0, (*typegen.Reject)(nil)
-	func() {
-		subN, rej = typegen.RefDecode(arm, sub.Data, r.Seg, c13RefHook)
-	}()
-	if rej != nil {
-		rej.Off += r.Pos
-		rej.Path = path + ".payload" + rej.Path
-		panic(c13RejectCarrier{rej})
-	}
-	if subN != l-1 {
-		panic(c13RejectCarrier{&typegen.Reject{Reason: typegen.RTrailing, Off: r.Pos + subN, Path: path + ".payload", Detail: fmt.Sprintf("%d bytes of the frame left over", l-1-subN)}})
-	}
-	r.Pos += l - 1
-	return true
-}
-
-type c13RejectCarrier struct{ r *typegen.Reject }
-
-// c13RefDecode wraps typegen.RefDecode: frame-level rejects travel as a panic
-// through the generic reader; UnmarshalBinary entry points must use the whole input.
-func c13RefDecode(cdc *cdcCodec, data []byte, seg types.HashSegmentMap) (n int, rej *typegen.Reject) {
-	defer func() {
-		if p := recover(); p != nil {
-			switch x := p.(type) {
-			case c13RejectCarrier:
-				n, rej = x.r.Off, x.r
-			default:
-				n, rej = 0, &typegen.Reject{Reason: "frame", Detail: fmt.Sprint(p)}
-			}
-		}
-	}()
-	n, rej = typegen.RefDecode(cdc.Type, data, seg, c13RefHook)
-	if rej != nil && strings.HasSuffix(rej.Path, "#invalid-tag") {
-		rej.Reason = typegen.RTagRange
-	}
-	if rej == nil && cdc.wholeInput() && n != len(data) {
-		rej = &typegen.Reject{Reason: typegen.RTrailing, Off: n, Detail: fmt.Sprintf("%d trailing bytes", len(data)-n)}
-	}
-	return
-}
-
-// wholeInput: entry points without a consumed count must be given exactly one value.
-func (c *cdcCodec) wholeInput() bool {
-	return strings.HasPrefix(c.Name, "fuzz.") && c.Name != "fuzz.SetState#codec" && c.Name != "fuzz.Version" && c.Name != "fuzz.Message"
-}
-
 // c13Known: classifiers of the listed known findings. First by the reference
 // parser's FIRST reason the mutant is not canonical (the implementation accepted
 // it, so it tolerated exactly that), then by features of the value for decoder
 // defects that already show on valid input (C11 findings).
-func c13Known(cdc *cdcCodec, v0 reflect.Value, ap c13Applied, obs, detail string, s []byte, rej *typegen.Reject) (string, string) {
+func c13Known(cdc *cdcCodec, v0 reflect.Value, ap c13Applied, obs, detail string, s []byte, rej *typegen.Reject, consumed int, seg types.HashSegmentMap) (string, string) {
 	name := cdcShort(cdc.Name)
+	// does a known early-return defect explain what the implementation consumed?
+	laxExplains := func(mode string) bool {
+		n, lr := cdcRefDecode(cdc, s, seg, mode)
+		if (lr != nil && lr.Reason != typegen.RTrailing) || n != consumed {
+			return false
+		}
+		sn, sr := cdcRefDecode(cdc, s, seg, "")
+		return (sr != nil && sr.Reason != typegen.RTrailing) || sn != consumed
+	}
+	mpath := ""
+	if ap.Mark != nil {
+		mpath = ap.Mark.Path
+	}
+	baseHasEmptyImports := c13Has(cdc, types.WorkItem{}) && cdcContains(v0, reflect.TypeOf(types.WorkItem{}), func(x reflect.Value) bool {
+		return len(x.Interface().(types.WorkItem).ImportSegments) == 0
+	})
+	baseHasEmptyKey := c13Has(cdc, types.Storage{}) && cdcContains(v0, reflect.TypeOf(types.Storage{}), func(x reflect.Value) bool {
+		_, ok := x.Interface().(types.Storage)[""]
+		return ok
+	})
+	// the UNMUTATED encoding is already mis-decoded by a known early return: everything behind that point is parsed out of step
+	if baseHasEmptyImports && strings.HasPrefix(cdc.Name, "types.") {
+		return "KF-C13-11", "the base value has a work item with no import segments; WorkItem.Decode returns early there (see KF-C11-2): " + detail
+	}
+	if baseHasEmptyKey && strings.HasPrefix(cdc.Name, "types.") {
+		return "KF-C13-12", "the base value has a zero-length storage key; Storage.Decode returns early there (see KF-C11-7): " + detail
+	}
 	if rej != nil {
 		d := "reference parser: " + rej.String() + "; " + detail
 		switch {
@@ -450,23 +375,11 @@ func c13Known(cdc *cdcCodec, v0 reflect.Value, ap c13Applied, obs, detail string
 			return "KF-C13-14", d
 		}
 	}
-	mpath := ""
-	if ap.Mark != nil {
-		mpath = ap.Mark.Path
-	}
 	switch {
-	case c13Has(cdc, types.WorkItem{}) && (rej == nil || rej.Reason == typegen.RTruncated || rej.Reason == typegen.RCountTooBig) &&
-		(strings.HasSuffix(mpath, ".ImportSegments") || cdcContains(v0, reflect.TypeOf(types.WorkItem{}), func(x reflect.Value) bool {
-			return len(x.Interface().(types.WorkItem).ImportSegments) == 0
-		})):
-		// the implementation stops after an import-segment count of 0: whatever follows is not parsed
-		return "KF-C13-11", "WorkItem.Decode returns early when the import-segment count is 0 (see KF-C11-2): " + detail + " / reference: " + rej.String()
-	case c13Has(cdc, types.Storage{}) && (rej == nil || rej.Reason == typegen.RTruncated || rej.Reason == typegen.RCountTooBig) &&
-		(strings.HasSuffix(mpath, ".keylen") || strings.HasSuffix(mpath, ".key") || cdcContains(v0, reflect.TypeOf(types.Storage{}), func(x reflect.Value) bool {
-			_, ok := x.Interface().(types.Storage)[""]
-			return ok
-		})):
-		return "KF-C13-12", "Storage.Decode stops at a zero key length (see KF-C11-7): " + detail + " / reference: " + rej.String()
+	case c13Has(cdc, types.WorkItem{}) && strings.HasPrefix(cdc.Name, "types.") && (strings.HasSuffix(mpath, ".ImportSegments") || laxExplains("workitem")):
+		return "KF-C13-11", "the input parses to exactly the consumed length only under 'WorkItem ends after an import-segment count of 0' (see KF-C11-2): " + detail
+	case c13Has(cdc, types.Storage{}) && strings.HasPrefix(cdc.Name, "types.") && (strings.HasSuffix(mpath, ".keylen") || laxExplains("storage")):
+		return "KF-C13-12", "the input parses to exactly the consumed length only under 'Storage ends at a zero key length' (see KF-C11-7): " + detail
 	case name == "MetaCode":
 		return "KF-C13-13", "MetaCode.Decode early returns and short reads (see KF-C11-3): " + detail
 	case name == "Operand":
@@ -500,8 +413,8 @@ func c13CompactAt(s []byte, off int) uint64 {
 	return x
 }
 
-func c13Fail(c *kit.Case, cdc *cdcCodec, v0 reflect.Value, ap c13Applied, obs, detail string, s []byte, rej *typegen.Reject) {
-	if id, d := c13Known(cdc, v0, ap, obs, detail, s, rej); id != "" {
+func c13Fail(c *kit.Case, cdc *cdcCodec, v0 reflect.Value, ap c13Applied, obs, detail string, s []byte, rej *typegen.Reject, consumed int, seg types.HashSegmentMap) {
+	if id, d := c13Known(cdc, v0, ap, obs, detail, s, rej, consumed, seg); id != "" {
 		c.Known(id, cdc.Name+": "+d)
 	}
 	c.Failf("%s [%s] mutation %s (%s): %s", cdc.Name, obs, ap.Kind, ap.What, detail)
@@ -520,7 +433,7 @@ func c13Check(c *kit.Case, in c13Input) {
 	if err != nil {
 		c.Failf("%s: Encode of an in-domain value failed: %v", cdc.Name, err)
 	}
-	ref, marks, lerr := typegen.Layout(v0, seg, c13Hook)
+	ref, marks, lerr := typegen.Layout(v0, seg, cdcLayoutHook)
 	if lerr != nil || !bytes.Equal(ref, enc0) {
 		// positions unknown for this value (e.g. KF-C11-1 ordering): unstructured mutations only
 		c.Class("layout_unavailable")
@@ -554,10 +467,14 @@ func c13Check(c *kit.Case, in c13Input) {
 	}
 	c.Class("accepted")
 	c.NonTrivial()
+	consumed := r.Consumed
+	if consumed < 0 {
+		consumed = len(s)
+	}
 	// what does the strict reference parser say about the mutant? (classification only)
 	var rej *typegen.Reject
-	if n0, rej0 := c13RefDecode(cdc, enc0, seg); rej0 == nil && n0 == len(enc0) {
-		_, rej = c13RefDecode(cdc, s, seg)
+	if n0, rej0 := cdcRefDecode(cdc, enc0, seg, ""); rej0 == nil && n0 == len(enc0) {
+		_, rej = cdcRefDecode(cdc, s, seg, "")
 		if rej == nil {
 			c.Class("accepted_and_reference_accepts")
 		} else {
@@ -566,22 +483,23 @@ func c13Check(c *kit.Case, in c13Input) {
 	} else {
 		c.Class("reference_parser_unusable")
 	}
-	consumed := r.Consumed
-	if consumed < 0 {
-		consumed = len(s)
+	if rej != nil && rej.Off >= consumed && rej.Reason != typegen.RTrailing {
+		// the implementation stopped before the first thing the strict parser objects to
+		c.Class("reference_objection_lies_beyond_consumed")
+		rej = nil
 	}
 	if consumed > len(s) {
-		c13Fail(c, cdc, v0, ap, "consumed", fmt.Sprintf("decoder reports %d bytes consumed of a %d-byte input", consumed, len(s)), s, rej)
+		c13Fail(c, cdc, v0, ap, "consumed", fmt.Sprintf("decoder reports %d bytes consumed of a %d-byte input", consumed, len(s)), s, rej, consumed, seg)
 	}
 	detail := fmt.Sprintf("input %s", cdcHex(s))
 	if r.ReencErr != "" {
-		c13Fail(c, cdc, v0, ap, "reencode-error", "accepted, but the decoded value has no encoding: "+r.ReencErr+"; "+detail, s, rej)
+		c13Fail(c, cdc, v0, ap, "reencode-error", "accepted, but the decoded value has no encoding: "+r.ReencErr+"; "+detail, s, rej, consumed, seg)
 	}
 	if !bytes.Equal(r.Reenc, s[:consumed]) {
-		c13Fail(c, cdc, v0, ap, "non-canonical", fmt.Sprintf("accepted (consumed %d), re-encoding differs: %s; %s", consumed, cdcHex(r.Reenc), detail), s, rej)
+		c13Fail(c, cdc, v0, ap, "non-canonical", fmt.Sprintf("accepted (consumed %d), re-encoding differs: %s; %s", consumed, cdcHex(r.Reenc), detail), s, rej, consumed, seg)
 	}
 	if ap.MustReject {
-		c13Fail(c, cdc, v0, ap, "accepted-invalid", "mutant is invalid by construction but was accepted; "+detail, s, rej)
+		c13Fail(c, cdc, v0, ap, "accepted-invalid", "mutant is invalid by construction but was accepted; "+detail, s, rej, consumed, seg)
 	}
 }
 
